@@ -48,7 +48,11 @@ MUST_HAVE = [("int", 2**53), ("int", 2**53 + 1), ("dec", float(2**53)), ("int", 
              # the same content under another kind: empty object / map / list / set / string, one member named like one key
              ("obj", ()), ("obj", (("a", ("int", 1)),)), ("map", ((("str", "a"), ("int", 1)),)), ("obj", (("a", ("dec", 1.0)),)),
              ("list", (("str", "a"), ("int", 1))), ("set", (("str", "a"),)), ("list", (("list", (("str", "a"), ("int", 1))),)),
-             ("pat", ""), ("str", "NULL"), ("str", "TRUE"), ("list", (("null",),)), ("set", (("null",),))]
+             ("pat", ""), ("str", "NULL"), ("str", "TRUE"), ("list", (("null",),)), ("set", (("null",),)),
+             # spellings that Unicode calls equivalent (precomposed / combining, compatibility forms) are different strings:
+             # other code points, other hash, other elements of a set
+             ("str", "caf\u00e9"), ("str", "cafe\u0301"), ("str", "\u212b"), ("str", "\u00c5"), ("str", "A\u030a"), ("str", "\ufb01"), ("str", "fi"), ("str", "\u1e69"), ("str", "s\u0323\u0307"), ("str", "s\u0307\u0323"),
+             ("list", (("str", "caf\u00e9"),)), ("list", (("str", "cafe\u0301"),))]
 
 KINDS_ALL = ["null", "bool", "int", "dec", "str", "date", "pat"]
 # decimals that differ by a few units in the last place: equal only if identical
